@@ -39,6 +39,7 @@ RULE += (' Also: frozen hosts (__setattr__ raises).')
 RULE += (' Also: probe locks offer locked().')
 RULE += (" Also: deletion by replacing the instance's __dict__.")
 RULE += (' Also: a subclass overriding the cached property and awaiting super().p.')
+RULE += (' Also: instances of a subclass that merely inherits the property (placeholders awaited after a deletion included).')
 RULE += (' Also: getters failing with a BaseException that is no Exception.')
 RULE += (' Also: host classes with customised attribute reads (__getattribute__ handing out stand-ins).')
 RULE += (' Also: hosts inheriting from a base that declares __slots__ = () (abc.ABC, Generic) while having a __dict__ of their own.')
@@ -79,7 +80,7 @@ def cases(tier, seed, shard, nshards):
         yield {"kind": "seq", "ops": [rng.choice(SEQ_OPS) for _ in range(rng.randint(6, 15))], "lock": rng.random() < 0.5,
                # (a host class whose attribute READS are customised: the property keeps reading its own state from
                # the instance's __dict__, not through the class's attribute access)
-               "traced_reads": rng.random() < 0.2, "slotted_base": rng.random() < 0.25,
+               "traced_reads": rng.random() < 0.2, "slotted_base": rng.random() < 0.25, "inherited": rng.random() < 0.3,
                "exc": rng.choice(PLANNED_NAMES), "falsy": rng.choice([None, None, "none", "zero", "false", "empty", "opaque", "awaitable"])}
     n = max(1, N_SCEN[tier] // nshards)
     for i in range(n):
@@ -97,7 +98,7 @@ def cases(tier, seed, shard, nshards):
                "lock_susp": rng.choice([[0, 0], [0, 0], [1, 0], [0, 1]]),
                "runs": DFS_LIMIT[tier] if mode == "dfs" else RANDOM_RUNS[tier], "seed": rng.randrange(1 << 30),
                "exc": rng.choice(PLANNED_NAMES), "global_lock": rng.random() < 0.3, "traced_reads": rng.random() < 0.15,
-               "slotted_base": rng.random() < 0.2}
+               "slotted_base": rng.random() < 0.2, "inherited": rng.random() < 0.3}
 
 
 from ..tools import Opaque, AwaitablePayload  # noqa: E402
@@ -172,6 +173,9 @@ def run_seq(case, stats):
                        "__bool__": lambda self: False, "__len__": lambda self: 0, "__setattr__": _frozen,
                        **({"__getattribute__": _traced_reads} if case.get("traced_reads") else {})})
     prop.__set_name__(K, "p")
+    if case.get("inherited"):
+        # the instances belong to a SUBCLASS that only inherits the property (nothing named "p" in its own namespace)
+        K = type("KSub", (K,), {})
     inst = [K(0), K(1)]
     slot = ["absent", "absent"]  # "absent" | "placeholder" | ("value", v)
     handles = []  # (instance, kind, value-or-None, object)
@@ -360,6 +364,8 @@ def execute(case, choose, cancel_at=None):
     K = type("K", (_SlottedBase,) if case.get("slotted_base") else (), {"p": prop, "__bool__": lambda self: False, "__len__": lambda self: 0, "__setattr__": _frozen,
                        **({"__getattribute__": _traced_reads} if case.get("traced_reads") else {})})
     prop.__set_name__(K, "p")
+    if case.get("inherited"):
+        K = type("KSub", (K,), {})
     inst = K()
     stored = inst.p if "stored" in case["awaiters"] else None
     awaits = []  # (task, t0, t1, result)
